@@ -178,8 +178,8 @@ def _translator(reg, cellq, U, F):
         return z3.Function('c03_cells_of', S.V, S.V)(to_v(e))
     reg.spec('cells_of', _cells_of, None, 'the list of cells that excel.get_cells() returns')
     reg.external('method:get_cells', get_cells,
-                 'excel.get_cells(): a list of freshly created, filled Cell objects with integer coordinates (Excel.get_cells / '
-                 'fill_cell: C02, C18)')
+                 'excel.get_cells(): a list of freshly created, filled Cell objects with integer coordinates (assumed here; proved as '
+                 'contract Excel.get_cells in contracts/c02.py, obligations C02.Excel.get_cells.*)')
     reg.add(Contract(
         'CellTranslator.translate_file', 'repo:translators/cell_translator.py:CellTranslator.translate_file',
         {'cls': 'cls', 'excel': 'V', 'context': 'obj:Context'}, self_class='CellTranslator',
